@@ -48,6 +48,17 @@ CLAIMED["C19"] = {
     "design_ref": "DESIGN.md §5 C19",
 }
 
+CLAIMED["C13"] = {
+    "text": "Row-level facts of the standard-form conversion, proved for all real vectors (Verus): EqualityConstraint::new yields a non-negative right-hand side and a row with exactly the same solutions; "
+            "normalize_constraint turns a <= / >= row into an equality with ONE new column placed after all structural columns so that the equality holds for x extended by s = x[n] iff the inequality "
+            "holds with slack / surplus s, and rejects strict comparisons; ensure_size pads without changing the row's value; optimal_value maps the tableau value back through the sign flip with the offset kept in the user's frame. "
+            "The whole-model statement (bound rows, free-variable split with positional column bookkeeping in to_standard_form) is NOT decided: that function is built from iterator chains over IndexMap that neither back end takes; "
+            "remove_many, which it relies on, is checked by a BOUNDED Kani harness only.",
+    "note": "Trusted: prelude/f64_layer.rs (exact reals on finite floats), prelude/std_stubs.rs. Not decided: to_standard_form as a whole (column layout across free-variable splits, bound rows).",
+    "technique": "Verus contracts with ghost dot-product lemmas on extracted EqualityConstraint / normalize_constraint / optimal_value; Kani bounded harness for remove_many",
+    "design_ref": "DESIGN.md §5 C13",
+}
+
 NOT_APPLICABLE = {
     "C03": "quantifies over source texts through the pest-generated parser and an external MILP search; every in-repo step that can carry a contract is covered by C01/C02/C04/C05; no further function exists to attach an obligation to",
     "C06": "relates two parses; the expansion engine works on parser IL with dyn Fn callbacks, scope frames and evaluated iterables that Verus does not accept and Kani cannot execute; its specification would be a formal semantics of the whole language",
@@ -55,5 +66,5 @@ NOT_APPLICABLE = {
     "C17": "the export is text read by an independent reader; a contract would need a formal LP-format reader and a string theory for format!/push_str output; Kani cannot execute float formatting",
     "C20": "sensitivities are computed inside clarabel/good_lp; rooc only forwards them by name, so no contract on repository code decides the sign convention",
     "C01": PENDING, "C02": PENDING, "C04": PENDING, "C05": PENDING, "C08": PENDING, "C10": PENDING, "C11": PENDING, "C12": PENDING,
-    "C13": PENDING, "C15": PENDING, "C16": PENDING, 
+     "C15": PENDING, "C16": PENDING, 
 }
